@@ -264,7 +264,13 @@ async fn main(plan: Plan) -> Outcome {
     let mut calls: Vec<UseCall> = Vec::new();
     for _ in 0..plan.use_calls {
         world::sleep_ns(tape::range("c20:use_gap", 0, span / plan.use_calls as u64)).await;
-        let which = tape::choose("c20:which_ks", KEYSPACES.len() as u64) as usize;
+        let mut which = tape::choose("c20:which_ks", KEYSPACES.len() as u64) as usize;
+        // After a failed call the application typically retries the same name.
+        if let Some(last) = calls.last() {
+            if !last.ok && tape::chance("c20:retry_same", 2, 3) {
+                which = KEYSPACES.iter().position(|k| *k == last.name).unwrap_or(which);
+            }
+        }
         let name = KEYSPACES[which];
         let case_sensitive = name.chars().any(|c| c.is_ascii_uppercase());
         let start = world::now_ns();
@@ -321,6 +327,10 @@ async fn main(plan: Plan) -> Outcome {
             Err(_) => out.violation("c20.use_hang", format!("use_keyspace({name:?}) did not return")),
         }
         if !valid {
+            // The same invalid name again: still rejected.
+            if let Ok(Ok(())) = tokio::time::timeout(Duration::from_secs(60), session.use_keyspace(name.clone(), cs)).await {
+                out.violation("c20.invalid_name_accepted", format!("use_keyspace({name:?}) succeeded at the second attempt"));
+            }
             invalid_tried.push(name);
         }
     }
